@@ -20,6 +20,8 @@ def canon_cell(v) -> Any:
     if isinstance(v, bool):
         return 1.0 if v else 0.0
     if isinstance(v, int):
+        if abs(v) >= 2 ** 53:
+            return "i:%d" % v  # beyond float precision: keep exact
         return float(v)
     if isinstance(v, float):
         if math.isnan(v):
